@@ -16,6 +16,7 @@ import (
 	"sort"
 	"strings"
 	"sync"
+	"sync/atomic"
 	"syscall"
 	"time"
 
@@ -375,6 +376,71 @@ func poolYAML(id, gunType, ammoType, ammoFile, target string, shots, instances i
 `, id, ammoType, ammoFile, gunType, target, gunExtra, shots, instances)
 }
 
+// ---------------------------------------------------------------- first-access contention (M1)
+//
+// spinBarrier lets n goroutines leave at (almost) the same instant: the last one to arrive opens the gate, the others
+// spin on it.  Nobody waits longer than 200 ms (then the run simply is less contended; nothing is decided from timing).
+type spinBarrier struct {
+	n       int32
+	arrived atomic.Int32
+}
+
+func (b *spinBarrier) wait() {
+	if b.arrived.Add(1) >= b.n {
+		return
+	}
+	deadline := time.Now().Add(200 * time.Millisecond)
+	for i := 0; b.arrived.Load() < b.n; i++ {
+		if i&0xfff == 0xfff && time.Now().After(deadline) {
+			return
+		}
+	}
+}
+
+// barrierPreprocessor sits in front of the REAL preprocessor of one step (through the gun's pluggable Preprocessor
+// interface): the instances meet at the barrier and then all call the real Process - i.e. the real, shared
+// NextIterator - together.
+type barrierPreprocessor struct {
+	real httpscenario.Preprocessor
+	bar  *spinBarrier
+}
+
+func (p *barrierPreprocessor) Process(templateVars map[string]any) (map[string]any, error) {
+	p.bar.wait()
+	return p.real.Process(templateVars)
+}
+
+// barrierProvider wraps the REAL scenario provider: every ammo it hands out gets, per step, the barrier in front of the
+// step's real preprocessor (one barrier per step position, shared by all instances; every instance fires one shot).
+type barrierProvider struct {
+	core.Provider
+	mu   sync.Mutex
+	bars []*spinBarrier
+	n    int
+}
+
+func (p *barrierProvider) Acquire() (core.Ammo, bool) {
+	a, ok := p.Provider.Acquire()
+	if !ok {
+		return a, ok
+	}
+	sc := a.(*httpscenario.Scenario)
+	reqs := make([]httpscenario.Request, len(sc.Requests))
+	copy(reqs, sc.Requests)
+	p.mu.Lock()
+	for len(p.bars) < len(reqs) {
+		p.bars = append(p.bars, &spinBarrier{n: int32(p.n)})
+	}
+	p.mu.Unlock()
+	for i := range reqs {
+		if reqs[i].Preprocessor != nil {
+			reqs[i].Preprocessor = &barrierPreprocessor{real: reqs[i].Preprocessor, bar: p.bars[i]}
+		}
+	}
+	sc.Requests = reqs
+	return sc, true
+}
+
 type caseObs struct {
 	Log      []scentarget.Entry `json:"log"`
 	Samples  []obsSample        `json:"samples"`
@@ -433,9 +499,9 @@ func ringOf(payload string, n int) ([]string, error) {
 	return out, nil
 }
 
-func runCase(c map[string]interface{}, tgt *scentarget.Target, root string, hcl bool, instances int) caseObs {
+func runCase(c map[string]interface{}, tgt *scentarget.Target, root string, hcl bool, instances int, spin bool, tag string) caseObs {
 	id := vt.Int(c["id"])
-	dir := filepath.Join(root, fmt.Sprintf("c%d", id))
+	dir := filepath.Join(root, fmt.Sprintf("c%d%s", id, tag))
 	if err := os.MkdirAll(dir, 0o755); err != nil {
 		panic(err)
 	}
@@ -452,11 +518,14 @@ func runCase(c map[string]interface{}, tgt *scentarget.Target, root string, hcl 
 	}
 	sc := vt.Map(c["script"])
 	tgt.Reset(scentarget.Script{Kind: vt.Str(sc["kind"]), At: vt.Int(sc["at"])})
-	conf, err := buildEngineConf(poolYAML(fmt.Sprintf("c%d", id), "http/scenario", "http/scenario", payload, tgt.Addr(),
-		vt.Int(c["shots"]), instances, ""), id%2 == 1)
+	pool := poolYAML(fmt.Sprintf("c%d", id), "http/scenario", "http/scenario", payload, tgt.Addr(), vt.Int(c["shots"]), instances, "")
+	conf, err := buildEngineConf(pool, id%2 == 1)
 	if err != nil {
 		obs.BuildErr = err.Error()
 		return obs
+	}
+	if spin {
+		conf.Engine.Pools[0].Provider = &barrierProvider{Provider: conf.Engine.Pools[0].Provider, n: instances}
 	}
 	agg := &scnRecAggregator{}
 	obs.RunErr = scnRunEngine(conf, agg, 120*time.Second)
@@ -478,9 +547,15 @@ func scenarioMain(args []string) {
 	workers := fs.Int("workers", 8, "parallel cases (one target each)")
 	inst := fs.Int("instances", 1, "instances (1 for the deterministic replay; > 1 for the [next] sharing runs)")
 	hclEvery := fs.Int("hcl-every", 0, "render every n-th case through HCL instead of YAML (0 = never)")
+	spin := fs.Bool("spin-barrier", false, "first-access contention runs: the instances (one shot each) meet at a spin barrier in front of every step's real preprocessor")
+	repeat := fs.Int("repeat", 1, "run every case this many times (each with a fresh provider / iterator)")
 	fs.Parse(args)
 	importAll()
-	cases := vt.ReadNDJSON(*in)
+	cases0 := vt.ReadNDJSON(*in)
+	cases := []map[string]interface{}{}
+	for r := 0; r < *repeat; r++ {
+		cases = append(cases, cases0...)
+	}
 	w := vt.Create(*out)
 	defer w.Close()
 	root, err := os.MkdirTemp("", "verif-scen-")
@@ -498,7 +573,7 @@ func scenarioMain(args []string) {
 			tgt := scentarget.NewTarget()
 			defer tgt.Close()
 			for j := range next {
-				results[j] = runCase(cases[j], tgt, root, *hclEvery > 0 && j%*hclEvery == 0, *inst)
+				results[j] = runCase(cases[j], tgt, root, *hclEvery > 0 && j%*hclEvery == 0, *inst, *spin, fmt.Sprintf("_%d", j))
 			}
 		}()
 	}
@@ -511,7 +586,7 @@ func scenarioMain(args []string) {
 	for j := range cases {
 		if strings.Contains(results[j].RunErr, "context deadline exceeded") {
 			tgt := scentarget.NewTarget()
-			results[j] = runCase(cases[j], tgt, root, results[j].Format == "hcl", *inst)
+			results[j] = runCase(cases[j], tgt, root, results[j].Format == "hcl", *inst, *spin, fmt.Sprintf("_%dr", j))
 			tgt.Close()
 		}
 	}
